@@ -10,6 +10,7 @@ import (
 	"errors"
 	"flag"
 	"fmt"
+	"hash/fnv"
 	"io"
 	"math/bits"
 	"math/rand"
@@ -39,6 +40,8 @@ type Case struct {
 	NBufs  int    `json:"nbufs"`
 	Offset int    `json:"offset"`
 	Room   int    `json:"room"` // len(bufs[i]) - offset
+	// GSeed selects the stale bytes the output buffers hold before the call (0 = derive from Raw)
+	GSeed uint64 `json:"gseed,omitempty"`
 	// observed
 	Panic    bool     `json:"panic"`
 	PanicMsg string   `json:"panic_msg,omitempty"`
@@ -91,7 +94,23 @@ func classify(err error) int {
 	return 99
 }
 
-// runImpl runs the real code on zero-filled buffers of equal size.
+// staleByte is Gso.stale_byte: content of output buffer i at position j (relative to
+// offset) before the call. Never zero, no short period.
+func staleByte(gseed uint64, i, j int) byte {
+	return byte(1 + ((gseed+7*uint64(i)+uint64(j)*uint64(j+3))%65521)%255)
+}
+
+// staleAt gives the stale byte at absolute index a of buffer i.
+func staleAt(c *Case, i, a int) byte {
+	if a >= c.Offset {
+		return staleByte(c.GSeed, i, a-c.Offset)
+	}
+	return staleByte(c.GSeed+1, i, a+70000)
+}
+
+// runImpl runs the real code on buffers of equal size that, like the device's pooled and
+// never cleared buffers, are full of stale non-zero bytes (whole capacity: in front of
+// offset and behind the packet).
 func runImpl(c *Case) {
 	switch c.Type {
 	case "ck":
@@ -103,9 +122,17 @@ func runImpl(c *Case) {
 		return
 	}
 	c.Panic, c.PanicMsg, c.Touched, c.N, c.Err, c.ErrMsg, c.Segs = false, "", false, 0, 0, "", nil
+	if c.GSeed == 0 {
+		h := fnv.New32a()
+		h.Write(c.Raw)
+		c.GSeed = 1 + uint64(h.Sum32()%1000000)
+	}
 	bufs := make([][]byte, c.NBufs)
 	for i := range bufs {
 		bufs[i] = make([]byte, c.Offset+c.Room)
+		for a := range bufs[i] {
+			bufs[i][a] = staleAt(c, i, a)
+		}
 	}
 	sizes := make([]int, c.NBufs)
 	for i := range sizes {
@@ -138,7 +165,7 @@ func runImpl(c *Case) {
 			c.Segs = append(c.Segs, append([]byte(nil), bufs[i][c.Offset:c.Offset+used]...))
 		}
 		for j, b := range bufs[i] {
-			if b != 0 && (j < c.Offset || j >= c.Offset+used) {
+			if (j < c.Offset || j >= c.Offset+used) && b != staleAt(c, i, j) {
 				c.Touched = true
 			}
 		}
@@ -882,7 +909,7 @@ func gallina(c Case) string {
 	if n < 0 {
 		n = 1 << 30
 	}
-	fmt.Fprintf(&b, "mk %d %s %d %d %v %v %d %d [", len(c.Raw), packed(c.Raw), c.NBufs, c.Room, c.Panic, c.Touched, n, c.Err)
+	fmt.Fprintf(&b, "mk %d %s %d %d %d %v %v %d %d [", len(c.Raw), packed(c.Raw), c.NBufs, c.Room, c.GSeed, c.Panic, c.Touched, n, c.Err)
 	for i, s := range c.Segs {
 		if i > 0 {
 			b.WriteString(";")
